@@ -2,7 +2,7 @@
 
 PROP = dict(
     level="proof",
-    lean_modules=['PopsModel.Props.C02', 'PopsModel.Props.C02Soil'],
+    lean_modules=['PopsModel.Props.C02', 'PopsModel.Props.C02Soil', 'PopsModel.Props.NonVacuous.Host'],
     theorems=['Pops.C02_nonneg_step', 'Pops.C02_nonneg_move', 'Pops.C02_infected_le_total', 'Pops.C02_died_le_infected', 'Pops.C02_taken_le_present', 'Pops.C02_history', 'Pops.C02_soil_release_bounded', 'Pops.C02_soil_stochastic_full_fails'],
     commands=[],
     runs={
